@@ -101,9 +101,13 @@ impl<'l> CelCompiler<'l> {
     }
 
     fn parse_expression_unguarded(&mut self) -> CelResult<(CompiledProg, AstNode<Expr>)> {
-        if let Some(Token::Match) = self.tokenizer.peek()?.as_token() {
+        if let Some(&TokenWithLoc {
+            token: Token::Match,
+            loc: match_loc,
+        }) = self.tokenizer.peek()?
+        {
             self.tokenizer.next()?;
-            self.parse_match_expression()
+            self.parse_match_expression(match_loc)
         } else {
             let (lhs_node, lhs_ast) = self.parse_conditional_or()?;
 
@@ -258,10 +262,14 @@ impl<'l> CelCompiler<'l> {
         ))
     }
 
-    fn parse_match_expression(&mut self) -> CelResult<(CompiledProg, AstNode<Expr>)> {
+    fn parse_match_expression(
+        &mut self,
+        match_loc: SourceRange,
+    ) -> CelResult<(CompiledProg, AstNode<Expr>)> {
         let (condition_node, condition_ast) = self.parse_expression()?;
 
-        let mut range = condition_ast.range();
+        // the expression starts at the match keyword
+        let mut range = match_loc.surrounding(condition_ast.range());
 
         let (node_value, mut node_details) = condition_node.into_parts();
         let mut node_bytecode = node_value.into_bytecode();
